@@ -12,13 +12,16 @@ wt = f"/tmp/wt/{prop}"
 if "--wt" in sys.argv:
     wt = sys.argv[sys.argv.index("--wt") + 1]
 src = f"/tmp/seeds/{prop}/{n}"
+if "--src" in sys.argv:
+    src = sys.argv[sys.argv.index("--src") + 1]
+new_n = sys.argv[sys.argv.index("--as") + 1] if "--as" in sys.argv else n
 meta = json.load(open(f"{src}/meta.json"))
 def _s(v):
     if isinstance(v, dict):
         return str(v.get("primary") or v.get("location") or " ".join(str(x) for x in v.values()))
     return str(v)
-loc = " ".join(_s(meta.get(k, "")) for k in ("demo_location", "demo", "demonstration")) + " " + " ".join(meta.get("commands_run", []) if isinstance(meta.get("commands_run", []), list) else [])
-append = re.search(r"[Aa]ppend\w*\s.*?(?:end|END) of (\S+\.rs)", loc)
+loc = " ".join(_s(meta.get(k, "")) for k in ("demo_location", "demo", "demonstration")).replace("/tmp/wt/" + os.path.basename(wt) + "/", "") + " " + " ".join(meta.get("commands_run", []) if isinstance(meta.get("commands_run", []), list) else [])
+append = re.search(r"[Aa]ppend\w*\s.*?(?:end|END) of (\S+\.rs)", loc) or re.search(r"[Aa]ppend\w*\s+to\s+(\S+\.rs)", loc)
 m = re.search(r"(?:copy|drop|place|put)\s+(?:\S*demo\S*\s+)?(?:to|into|as|at)\s+(\S+\.rs)", loc) if not append else append
 if not m:
     m = re.search(r"(\S+/tests/\S+\.rs)", loc)
@@ -33,9 +36,23 @@ libfilter = None
 if append:
     mf = re.search(r"--lib\s+([A-Za-z0-9_:]+)", loc) or re.search(r"child module (\w+)", loc) or re.search(r"mod (\w+)", open(f"{src}/demo_test.rs").read())
     libfilter = mf.group(1) if mf else ""
-env = dict(os.environ, CARGO_TARGET_DIR=f"{wt}/target", CARGO_NET_OFFLINE="true")
+env = dict(os.environ, CARGO_TARGET_DIR=f"{wt}/target", CARGO_NET_OFFLINE="true", USER="root")
 demo_file = "demo_test.rs" if os.path.exists(f"{src}/demo_test.rs") else [f for f in os.listdir(src) if f.endswith(".rs")][0]
 demo_cmd = f"cargo test -p {pkg} --offline --test {testname}" if not append else f"cargo test -p {pkg} --offline --lib {libfilter}"
+
+_run = meta.get("demo", {}).get("run") if isinstance(meta.get("demo"), dict) else None
+if _run and "cargo test" in _run:
+    _c = _run[_run.index("cargo test"):]
+    _c = _c.split("&&")[0].strip()
+    if "--offline" not in _c:
+        _c = _c.replace("cargo test", "cargo test --offline", 1)
+    pre = ""
+    if "cargo build" in _run and _run.index("cargo build") < _run.index("cargo test"):
+        pre = _run[_run.index("cargo build"):_run.index("cargo test")].split("&&")[0].strip()
+        if "--offline" not in pre:
+            pre = pre.replace("cargo build", "cargo build --offline", 1)
+        pre += " && "
+    demo_cmd = pre + _c
 
 def install_demo():
     if append:
@@ -75,7 +92,7 @@ clean()
 ok = (res["demo_without_change"]["rc"] == 0 and res["patch_applies"] and res["compiles_with_change"]
       and res["lib_tests_with_change"] == res["lib_tests_without_change"] and res["demo_with_change"]["rc"] != 0)
 res["confirmed"] = ok
-sid = f"{prop}-{n}"
+sid = f"{prop}-{new_n}"
 out_dir = f"/verif/seeded/{sid}"
 if ok:
     os.makedirs(out_dir, exist_ok=True)
